@@ -196,3 +196,35 @@ Section SkelGU02.
   Proof. intros; eapply admm_front_returns; eassumption. Qed.
 End SkelGU02.
 Print Assumptions C02_code_admm_entry.
+
+(* ---- the SOLVER'S ARGUMENT BUNDLE AS TRANSLATED (Gen/G_aa_*.v; facts: Proofs/GenEquivAR.v): a copy hands all nine fields on unchanged, in
+   their own slots (its deep copy IS its shallow copy: a matrix-valued sparsity weight would be shared - the library never calls it) ---- *)
+From Ticc Require Import Gen.PySkel Gen.G_aa_shallow Gen.G_aa_deep Proofs.GenEquivAR.
+Section SkelAR02.
+  Local Open Scope string_scope.
+  Variable V : Type.
+  Variable vnone : V.
+  Variable vint : Z -> V.
+  Variable as_int : V -> option Z.
+  Variable veq : V -> V -> bool.
+  Variable getattr : V -> string -> V.
+  Variable truthy : V -> bool.
+  Variable is_none : V -> bool.
+  Variables vtrue vfalse : V.
+  Variable as_list : V -> list V.
+  Variable vglobal : string -> V.
+  Variable oracle : list (event V) -> string -> list V -> res V.
+  Let aa_fields := GenEquivAR.aa_fields V getattr.
+  Theorem C02_code_bundle_shallow_copy (self r : V) (log log' : list (event V)) :
+    g_ADMMArguments_shallow_copy V getattr oracle self log = (Ret r, log') ->
+    log' = (log ++ [Ev f_aa_ctor (aa_fields self)])%list /\
+    oracle log f_aa_ctor (aa_fields self) = Ret r.
+  Proof. intros; eapply aa_shallow_returns; eassumption. Qed.
+  Theorem C02_code_bundle_deep_copy (self r : V) (log log' : list (event V)) :
+    g_ADMMArguments_deep_copy V oracle self log = (Ret r, log') ->
+    log' = (log ++ [Ev "method:shallow_copy" [self]])%list /\
+    oracle log "method:shallow_copy" [self] = Ret r.
+  Proof. intros; eapply aa_deep_returns; eassumption. Qed.
+End SkelAR02.
+Print Assumptions C02_code_bundle_shallow_copy.
+Print Assumptions C02_code_bundle_deep_copy.
